@@ -79,6 +79,31 @@ bool read_next_or_end(basic_staj_cursor<CharT>& cursor, std::error_code& ec)
     return (cursor.current().event_type() == staj_events::end_object) ? true : false; 
 }
 
+// The cursor is on a key: step over the member's value, however deeply nested, and stop on its last event
+template <typename CharT>
+void skip_member_value(basic_staj_cursor<CharT>& cursor, std::error_code& ec)
+{ 
+    cursor.next(ec); 
+    std::size_t depth = 0;
+    while (!ec)
+    {
+        auto event_type = cursor.current().event_type();
+        if (event_type == staj_events::begin_object || event_type == staj_events::begin_array)
+        {
+            ++depth;
+        }
+        else if (event_type == staj_events::end_object || event_type == staj_events::end_array)
+        {
+            --depth;
+        }
+        if (depth == 0)
+        {
+            break;
+        }
+        cursor.next(ec); 
+    }
+}
+
 template <std::size_t N>
 std::size_t find_first_not_set(const std::bitset<N>& indices)
 {
@@ -462,6 +487,11 @@ is_optional_value_set(const T&)
 #define JSONCONS_ALL_MEMBER_DECODE(Prefix, P2,P3,Member, Count) JSONCONS_ALL_MEMBER_DECODE_LAST(Prefix, P2,P3,Member, Count)
 #define JSONCONS_ALL_MEMBER_DECODE_LAST(Prefix, P2,P3,Member, Count) \
     if (count++ >= num_params) { \
+        skip_member_value(cursor, ec); /* an unknown member: step over its value */ \
+        if (ec) \
+        { \
+            return result_type{jsoncons::unexpect, ec, cursor.line(), cursor.column()}; \
+        } \
         is_end = read_next_or_end(cursor, ec); \
         if (ec) \
         { \
@@ -475,6 +505,11 @@ is_optional_value_set(const T&)
             } \
             return result_type{std::move(val)}; \
         } \
+        key = get_key(cursor, ec); \
+        if (ec) { \
+            return result_type{jsoncons::unexpect, ec, cursor.line(), cursor.column()}; \
+        } \
+        count = 0; \
     } \
     else if (!indices[num_params-Count] && key == object_names<value_type,char_type>::name(num_params-Count)) { \
         cursor.next(ec); \
@@ -512,6 +547,11 @@ is_optional_value_set(const T&)
 #define JSONCONS_N_MEMBER_DECODE(Prefix, P2,P3,Member, Count) JSONCONS_N_MEMBER_DECODE_LAST(Prefix, P2,P3,Member, Count)
 #define JSONCONS_N_MEMBER_DECODE_LAST(Prefix, P2,P3,Member, Count) \
     if (count++ >= num_params) { \
+        skip_member_value(cursor, ec); /* an unknown member: step over its value */ \
+        if (ec) \
+        { \
+            return result_type{jsoncons::unexpect, ec, cursor.line(), cursor.column()}; \
+        } \
         is_end = read_next_or_end(cursor, ec); \
         if (ec) \
         { \
@@ -526,6 +566,11 @@ is_optional_value_set(const T&)
             } \
             return result_type{std::move(val)}; \
         } \
+        key = get_key(cursor, ec); \
+        if (ec) { \
+            return result_type{jsoncons::unexpect, ec, cursor.line(), cursor.column()}; \
+        } \
+        count = 0; \
     } \
     else if (!indices[num_params-Count] && key == object_names<value_type,char_type>::name(num_params-Count)) { \
         cursor.next(ec); \
@@ -852,6 +897,11 @@ else \
 #define JSONCONS_N_MEMBER_NAME_DECODE_6(Member, Name, Mode, Match, Into, From) JSONCONS_N_MEMBER_NAME_DECODE_7(Member, Name, Mode, Match, Into, From)
 #define JSONCONS_N_MEMBER_NAME_DECODE_7(Member, Name, Mode, Match, Into, From) \
     if (count++ >= num_params) { \
+        skip_member_value(cursor, ec); /* an unknown member: step over its value */ \
+        if (ec) \
+        { \
+            return result_type{jsoncons::unexpect, ec, cursor.line(), cursor.column()}; \
+        } \
         is_end = read_next_or_end(cursor, ec); \
         if (ec) \
         { \
@@ -866,6 +916,11 @@ else \
             } \
             return result_type{std::move(val)}; \
         } \
+        key = get_key(cursor, ec); \
+        if (ec) { \
+            return result_type{jsoncons::unexpect, ec, cursor.line(), cursor.column()}; \
+        } \
+        count = 0; \
     } \
     else if (!indices[index] && key == Name) { \
         cursor.next(ec); \
@@ -938,6 +993,11 @@ else \
 #define JSONCONS_ALL_MEMBER_NAME_DECODE_6(Member, Name, Mode, Match, Into, From) JSONCONS_ALL_MEMBER_NAME_DECODE_7(Member, Name, Mode, Match, Into, From)
 #define JSONCONS_ALL_MEMBER_NAME_DECODE_7(Member, Name, Mode, Match, Into, From) \
    if (count++ >= num_params) { \
+       skip_member_value(cursor, ec); /* an unknown member: step over its value */ \
+       if (ec) \
+       { \
+           return result_type{jsoncons::unexpect, ec, cursor.line(), cursor.column()}; \
+       } \
        is_end = read_next_or_end(cursor, ec); \
        if (ec) \
        { \
@@ -952,6 +1012,11 @@ else \
            } \
            return result_type{std::move(val)}; \
        } \
+       key = get_key(cursor, ec); \
+       if (ec) { \
+           return result_type{jsoncons::unexpect, ec, cursor.line(), cursor.column()}; \
+       } \
+       count = 0; \
    } \
    else if (!indices[index] && key == Name) { \
        cursor.next(ec); \
